@@ -60,6 +60,10 @@ def strategy(tier):
     )
 
 
+class RepeatDiffers(Exception):
+    pass
+
+
 def run_id(graph, xs, ys):
     """Call y0; returns (estimand or None, exception or None, call counts)."""
     from y0.algorithm.identify import id_std, identify_outcomes
@@ -67,11 +71,21 @@ def run_id(graph, xs, ys):
     from ..y0util import ReentryGuard, identification_key
 
     with CallTrace(id_std, ["line_1", "line_2", "line_3", "line_4", "line_7", "p_parents"]) as tr, ReentryGuard(id_std, "identify", identification_key) as rg:
+        xset, yset = {V(x) for x in xs}, {V(y) for y in ys}
         try:
-            est = identify_outcomes(graph, {V(x) for x in xs}, {V(y) for y in ys})
+            est = identify_outcomes(graph, xset, yset)
             exc = None
         except Exception as e:  # noqa
             est, exc = None, e
+        if exc is None:
+            # the same argument objects again: the answer is a function of the query, whatever the first call did
+            # to its arguments or to module-level state
+            try:
+                again = identify_outcomes(graph, xset, yset)
+            except Exception as e:  # noqa
+                again = e
+            if (est is None) != (again is None) or (est is not None and (isinstance(again, Exception) or again != est)):
+                exc = RepeatDiffers(f"second call with the same argument objects gave {again!r} instead of {est!r}")
     tr.calls["identify"] = rg.calls
     return est, exc, tr.calls
 
@@ -113,6 +127,11 @@ def check(case) -> Outcome:
     touched = {x for e in g["di"] + g["bi"] for x in e}
     if set(g["nodes"]) - touched:
         labels.add("isolated-node")
+    if isinstance(exc, RepeatDiffers):
+        out.ok = False
+        out.detail = {"kind": "answer-changes-when-the-call-is-repeated-with-the-same-objects", "graph": g, "X": xs, "Y": ys, "exc": str(exc)[:600]}
+        out.labels = sorted(labels)
+        return out
     if exc is not None:
         labels.add("exception(not judged here; see C02)")
         out.labels = sorted(labels)
